@@ -121,6 +121,16 @@ def gen_cases(ctx):
             o["non_unit"] = True
         if rng.random() < 0.3:
             o["test"] = [rng.choice(["t1", "t[02468] ", "!t1", "t3 ", "t"])]
+        elif rng.random() < 0.25:
+            # several patterns of one kind whose meaning depends on being compiled separately
+            o["test"] = rng.choice([["t(1) ", "t(.)\\1 "], ["(?i)T1 ", "T2 "], ["t(0) ", "t(2) ", "t(\\d)\\1 "],
+                                    ["!t(1) ", "!t(.)\\1 "], ["t(?P<a>1)(?P=a) ", "t(3) "]])
+        if rng.random() < 0.25:
+            # a relative search path, and a test that leaves the process in another directory
+            o["relpath"] = True
+            cand = [t for t in w["tests"]]
+            if cand:
+                rng.choice(cand)["body"]["chdir"] = True
         cases.append(cw.Case(w, o))
     return cases
 
